@@ -99,7 +99,12 @@ func ExtractToDir(c context.Context, ls *ipld.LinkSystem, root cid.Cid, outputDi
 		}
 		var outputName string
 		if outputDir != "-" {
-			outputName = filepath.Join(outputResolvedDir, "unknown")
+			// go through resolvePath like every other entry, so that an existing symlink named
+			// "unknown" in the output directory is not written through
+			outputName, err = resolvePath(outputResolvedDir, "/unknown")
+			if err != nil {
+				return 0, err
+			}
 		}
 		if ufsNode.DataType.Int() == data.Data_File || ufsNode.DataType.Int() == data.Data_Raw {
 			if err := extractFile(c, ls, pbnode, outputName); err != nil {
